@@ -6,7 +6,7 @@ from ..defs import variant, enum, field
 PROP = "C12"
 SIZES = dict(quick=dict(sample=120, cap=700, flips=9), thorough=dict(sample=2500, cap=6000, flips=12))
 SPELL = ["k", "Kelvin", "ks", "SS", "straße", "été", "ÉTÉ", "i", "Istanbul", "fi", "ab1CD", "x-y_z", "kK", "ſtop", "mask", "K9",
-         "aBcDeFgHiJkL", "İ", "σς"]
+         "aBcDeFgHiJkL", "İ", "σς", "{id}", "[x]", "a@b`c", "x^~|\\_1"]
 
 
 def model(tier):
